@@ -24,9 +24,9 @@ var targetFile = map[string]string{
 	"NewWrappedSystemError": "GenErrors",
 	"GetSystemErrorMessage": "GenErrors",
 	"isEphemeralHostPort":   "GenHandshake",
-	"mexCheckFrame":      "GenMex",
-	"hcEnabled":          "GenHealthIdle",
-	"idleCheckOk":        "GenHealthIdle",
+	"mexCheckFrame":         "GenMex",
+	"hcEnabled":             "GenHealthIdle",
+	"idleCheckOk":           "GenHealthIdle",
 }
 
 // varFields: constant fields of package-level composite-literal variables.
